@@ -495,9 +495,12 @@ class Bucket(_MutableMappingMixin, _BucketBase):
         b_new = type(self)()
         if s_new is not None:
             b_new.__setstate__(s_new)
+        # (identity, as in the C implementation: during conflict resolution
+        # the successors are ZODB PersistentReference stand-ins, which raise
+        # ValueError when asked whether two different ones are equal)
         if (
-            b_com._next != b_old._next or
-            b_new._next != b_old._next
+            b_com._next is not b_old._next or
+            b_new._next is not b_old._next
         ):
             raise BTreesConflictError(-1, -1, -1, 0)
 
@@ -768,9 +771,12 @@ class Set(_MutableSetMixin, _BucketBase):
         if s_new is not None:
             b_new.__setstate__(s_new)
 
+        # (identity, as in the C implementation: during conflict resolution
+        # the successors are ZODB PersistentReference stand-ins, which raise
+        # ValueError when asked whether two different ones are equal)
         if (
-            b_com._next != b_old._next or
-            b_new._next != b_old._next
+            b_com._next is not b_old._next or
+            b_new._next is not b_old._next
         ):  # conflict: com or new changed _next
             raise BTreesConflictError(-1, -1, -1, 0)
 
